@@ -78,6 +78,48 @@ func bindFieldLoadsByName(f *ssa.Function, vals map[string]consteval.Val) conste
 	return env
 }
 
+// bindFieldsAndGetters binds, in f and the helpers of its package it calls,
+// every load of a field named X and every call of a method named GetX.
+func bindFieldsAndGetters(f *ssa.Function, vals map[string]consteval.Val) consteval.Env {
+	env := bindFieldLoadsByName(f, vals)
+	scope := withClosures(f)
+	seen := map[*ssa.Function]bool{}
+	for _, g := range scope {
+		seen[g] = true
+	}
+	for i := 0; i < len(scope) && len(scope) < 24; i++ {
+		allInstrs(scope[i], func(ins ssa.Instruction) {
+			call, ok := ins.(*ssa.Call)
+			if !ok {
+				return
+			}
+			if g := call.Call.StaticCallee(); g != nil {
+				if g.Blocks != nil && g.Pkg == f.Pkg && !seen[g] {
+					seen[g] = true
+					scope = append(scope, g)
+				}
+				if call.Call.Signature().Recv() != nil && strings.HasPrefix(g.Name(), "Get") {
+					if v, has := vals[strings.TrimPrefix(g.Name(), "Get")]; has {
+						env[call] = v
+					}
+				}
+			}
+		})
+	}
+	return env
+}
+
+// valuesAt folds fn under env and returns the values v takes on the paths
+// that arrive at instruction at (ok false: never reached, or budget spent).
+func valuesAt(fn *ssa.Function, at ssa.Instruction, v ssa.Value, env consteval.Env) ([]consteval.Val, bool) {
+	ev := consteval.New()
+	var out []consteval.Val
+	ev.Watch = at
+	ev.OnWatch = func(get func(ssa.Value) consteval.Val) { out = append(out, get(v)) }
+	_, ok := ev.Eval(fn, nil, env)
+	return out, ok && len(out) > 0
+}
+
 func c16(c *Ctx) {
 	p, r := c.P, c.R
 	r.Explanation = "C16's WOTS+/FORS/XMSS/hypertree computation is value-level and NOT decided. Decided are the constants, derived parameters and guards: " +
